@@ -11,6 +11,23 @@ from htmltools import HTML, HTMLDependency, Tag, TagList, is_tag_child, is_tag_n
 from engine.api import harness
 
 
+import enum
+
+
+class Level(enum.IntEnum):
+    HIGH = 3
+
+
+class Metres(float):
+    def __repr__(self):
+        return "Metres(" + float.__repr__(self) + ")"
+
+
+class Count(int):
+    def __repr__(self):
+        return "<Count " + int.__repr__(self) + ">"
+
+
 class Bad:
     """an object of unsupported type"""
 
@@ -55,7 +72,7 @@ _T1 = Tag("b", "one")
 _T2 = Tag("i")
 _DEP = HTMLDependency("d", "1.0")
 _H = HTML("<h>")
-N_KIND = 15
+N_KIND = 17
 
 
 def arg(kind: int, s: str):
@@ -87,6 +104,10 @@ def arg(kind: int, s: str):
         return []
     if kind == 13:
         return (s, 2, True)
+    if kind == 15:
+        return [Level.HIGH, Count(5)]          # number subclasses whose repr() differs from str()
+    if kind == 16:
+        return Metres(2.5)
     return [[[_T1]], TagList(), (None,)]
 
 
@@ -116,7 +137,7 @@ def _pre(B, op, st, kx, ky, idx, s):
          shard=lambda B: [{"op": o, "kx": k} for o in range(N_OP) for k in range(N_KIND) if not (o in (7, 8, 9) and k > 0) and not (o in (10, 11) and k > 1)],
          sym=["s: str over all code points, len <= L (text of string arguments)", "idx: insertion / slice / repeat index in [-3, 3]"],
          sel=["op: 19 child operations (constructor, append, extend, insert, +, reflected +, +=, slicing, repetition, Tag delegates)",
-              "st: 4 valid pre-states", "kx, ky: argument shapes (scalars, None, nested lists/tuples/TagLists to depth 3, tags, HTML, dependency, invalid objects at depth 0-2)"],
+              "st: 4 valid pre-states", "kx, ky: argument shapes (scalars, None, nested lists/tuples/TagLists to depth 3, tags, HTML, dependency, invalid objects at depth 0-2, int/float subclasses whose repr differs from str)"],
          targets=["htmltools._core._tagchilds_to_tagnodes", "htmltools._util.flatten", "htmltools._core.TagList.extend", "htmltools._core.TagList.insert",
                   "htmltools._core.TagList.__add__", "htmltools._core.TagList.__radd__", "htmltools._core.TagList.__iadd__", "htmltools._core.is_tag_child"],
          timeout={"quick": 200, "thorough": 900})
